@@ -2,6 +2,8 @@
 import Verif.Common.Proto
 import Verif.C13.Model
 import Verif.C14.Model
+import Verif.C13.Loader
+import Verif.C13.Mask
 open Lean Verif.Proto Verif.C13 Verif.C14
 
 namespace Verif.C13.Driver
@@ -141,24 +143,111 @@ def stepsCovered (tab : List EngEntry) (steps : List Step) : Bool :=
     | .rule id _ _ => (lookup tab id st.inp).isSome
     | _ => true
 
+/-! ### loader ops -/
+namespace Ld
+open Verif.C13.Loader
+
+def errTag : LErr → String
+  | .reppError => "REPPError"
+  | .indexError => "IndexError"
+  | .attributeError => "AttributeError"
+  | .fuel => "fuel"
+
+def jLOp : LOp → Json
+  | .rule p t => Json.mkObj [("k", "rule"), ("pat", cps p), ("tpl", cps t)]
+  | .mask p => Json.mkObj [("k", "mask"), ("pat", cps p)]
+  | .call n => Json.mkObj [("k", "call"), ("n", cps n)]
+  | .ext nm => Json.mkObj [("k", "ext"), ("name", cps nm)]
+
+def jModule (m : Loader.Module) : Json :=
+  Json.mkObj [("ops", jList jLOp m.ops),
+              ("groups", jList (fun g => Json.arr #[cps g.1, jList jLOp g.2]) m.groups),
+              ("tok", optCps m.tok), ("info", optCps m.info)]
+
+def ofFile (j : Json) : Except String (Str × List Str) := do
+  let a ← j.getArr?
+  match a.toList with
+  | [n, ls] => pure (← ofCps n, ← (← ls.getArr?).toList.mapM ofCps)
+  | _ => throw "bad file"
+
+partial def ofNode (j : Json) : Except String Node := do
+  let k ← getStr j "k"
+  match k with
+  | "rule" => pure (.rule (← getCps j "pat") (← getCps j "tpl"))
+  | "mask" => pure (.mask (← getCps j "pat"))
+  | "call" => pure (.call (← getCps j "n"))
+  | "ext" => pure (.ext (← getCps j "name"))
+  | "defcall" => do
+    let body ← (← getArr j "body").mapM ofNode
+    pure (.defcall (← getCps j "n") body (← getBool j "after"))
+  | _ => throw s!"bad node {k}"
+
+def envOf (j : Json) : Except String Env := do
+  let files ← (← getArr j "files").mapM ofFile
+  let pre ← (← getArr j "pre").mapM ofCps
+  pure { files := fun n => (files.find? (fun f => f.1 = n)).map (·.2), hasDir := ← getBool j "hasDir", pre := pre }
+
+def jLoaded : Except LErr (Loader.Module × List (Str × Loader.Module)) → Json
+  | .error e => jErr (errTag e)
+  | .ok (m, mods) => jOk (Json.mkObj [("main", jModule m),
+      ("mods", jList (fun x => Json.arr #[cps x.1, jModule x.2]) mods)])
+
+def handleLoad (j : Json) : Except String Json := do
+  let env ← envOf j
+  let lines ← (← getArr j "lines").mapM ofCps
+  pure (jLoaded (loadLines env (← getNat j "fuel") lines))
+
+def handleRender (j : Json) : Except String Json := do
+  let env ← envOf j
+  let nodes ← (← getArr j "nodes").mapM ofNode
+  let info ← getOptCps j "info"
+  let tok ← getOptCps j "tok"
+  let lines := renderModule info tok nodes
+  pure (Json.mkObj [("lines", jList cps lines), ("loaded", jLoaded (loadLines env (← getNat j "fuel") lines)),
+                    ("wf", Json.bool (wfNodes env.pre nodes))])
+
+end Ld
+
+/-- maps, tokens and YY string of one run, given the yielded steps (already as JSON). -/
+def finishRun (stepsJ : Json) (res : Result) (seps : Option (List (Nat × Nat))) : Json :=
+  let base := [("steps", stepsJ), ("string", cps res.string),
+               ("startmap", jInts res.startmap), ("endmap", jInts res.endmap)]
+  match seps with
+  | none => Json.mkObj base
+  | some seps =>
+    match tokenize res seps with
+    | none => Json.mkObj (base ++ [("tokens", jErr "IndexError")])
+    | some toks =>
+      let lat := latticeOf toks 0
+      let str := latStr lat
+      Json.mkObj (base ++ [("tokens", jList jTok toks), ("yy", cps str), ("reparsed", jParsed (latParse str))])
+
 /-- one input string of a "run" request. -/
 def runOne (tab : List EngEntry) (ops : List Op) (fuel : Nat) (input : Str) (seps : Option (List (Nat × Nat))) : Json :=
   match Verif.C14.apply (engOf tab) fuel ops input with
   | .error e => jErr (errTag e)
   | .ok (steps, res) =>
     if !stepsCovered tab steps then jErr "engine"
-    else
-      let base := [("steps", jList jStep steps), ("string", cps res.string),
-                   ("startmap", jInts res.startmap), ("endmap", jInts res.endmap)]
-      match seps with
-      | none => Json.mkObj base
-      | some seps =>
-        match tokenize res seps with
-        | none => Json.mkObj (base ++ [("tokens", jErr "IndexError")])
-        | some toks =>
-          let lat := latticeOf toks 0
-          let str := latStr lat
-          Json.mkObj (base ++ [("tokens", jList jTok toks), ("yy", cps str), ("reparsed", jParsed (latParse str))])
+    else finishRun (jList jStep steps) res seps
+
+def jStepM (st : StepM) : Json :=
+  (jStep st.step).setObjVal! "mask" (jList jNat st.mask)
+
+def maskStepsCovered (mtab : List EngEntry) (steps : List Step) : Bool :=
+  steps.all fun st => match st.kind with
+    | .mask id => (lookup mtab id st.inp).isSome
+    | _ => true
+
+/-- one input string with the mask-threading semantics (`meng` table given). -/
+def runOneM (tab mtab : List EngEntry) (ops : List Op) (fuel : Nat) (input : Str) (seps : Option (List (Nat × Nat))) : Json :=
+  match traceStepsM (engOf tab) (engOf mtab) fuel ops input with
+  | .error e => jErr (errTag e)
+  | .ok (stm, o) =>
+    let steps := stm.map (·.step)
+    if !stepsCovered tab steps || !maskStepsCovered mtab steps then jErr "engine"
+    else match mergeSteps steps (initStart input) (initEnd input) with
+      | none => jErr "IndexError"
+      | some (sm, em) => finishRun (jList jStepM stm) ⟨o, sm, em⟩ seps
 
 def ofSeps (j : Json) : Except String (Option (List (Nat × Nat))) :=
   match j with
@@ -179,8 +268,20 @@ def handle (j : Json) : Except String Json := do
     let inputs ← (← getArr j "inputs").mapM ofCps
     let sepsL ← (← getArr j "seps").mapM ofSeps
     let fuel ← getNat j "fuel"
-    let runs := (inputs.zip sepsL).map (fun (inp, sp) => runOne tab ops fuel inp sp)
-    pure (Json.mkObj [("load", load), ("runs", Json.arr runs.toArray)])
+    let runs ← match j.getObjVal? "meng" with
+      | .ok (Json.arr a) => do
+        let mtab ← a.toList.mapM ofEngEntry
+        pure ((inputs.zip sepsL).map (fun (inp, sp) => runOneM tab mtab ops fuel inp sp))
+      | _ => pure ((inputs.zip sepsL).map (fun (inp, sp) => runOne tab ops fuel inp sp))
+    let loaded ← match j.getObjVal? "ltexts" with
+      | .ok (Json.arr a) => a.toList.mapM (fun lt => do
+          let env ← Ld.envOf lt
+          let lines ← (← getArr lt "lines").mapM ofCps
+          pure (Ld.jLoaded (Loader.loadLines env (← getNat lt "fuel") lines)))
+      | _ => pure []
+    pure (Json.mkObj [("load", load), ("runs", Json.arr runs.toArray), ("loaded", Json.arr loaded.toArray)])
+  | "load" => Ld.handleLoad j
+  | "render" => Ld.handleRender j
   | "yy" =>
     let toks ← (← getArr j "tokens").mapM ofYTok
     let str := latStr toks
